@@ -827,7 +827,7 @@ class ModelZlib:
     def total(self, tok):
         if tok[1] == 'empty':
             return ZEMPTY
-        return self.zlen[tok[1]]
+        return self.zlen[tok[1][1]]  # keyed by the object id (a symbolic size must never be hashed)
 
     def content(self, tok):
         if tok[1] == 'empty':
@@ -857,8 +857,8 @@ class ModelCompressObj:
         self.acc = self.acc + data
         if first and len(data.ext) > 0:
             src, lo, _ = data.ext[0]
-            if isinstance(src, tuple) and src[0] == 'obj' and src in self.zl.zlen and lo == 0:
-                z = self.zl.zlen[src]
+            if isinstance(src, tuple) and src[0] == 'obj' and src[1] in self.zl.zlen and lo == 0:
+                z = self.zl.zlen[src[1]]
                 e = min(self.zl.early, z - 1)
                 if e > 0:
                     self.tok = ('z', src)
@@ -872,9 +872,9 @@ class ModelCompressObj:
             return Seg([(('z', 'empty'), 0, ZEMPTY)])
         if len(ext) == 1:
             src, lo, hi = ext[0]
-            if isinstance(src, tuple) and src[0] == 'obj' and src in self.zl.zlen and lo == 0 and hi == src[2]:
+            if isinstance(src, tuple) and src[0] == 'obj' and src[1] in self.zl.zlen and lo == 0 and hi == src[2]:
                 if self.tok is None or self.tok == ('z', src):
-                    return Seg([(('z', src), self.emitted, self.zl.zlen[src])])
+                    return Seg([(('z', src), self.emitted, self.zl.zlen[src[1]])])
         # not the whole of one registered object (e.g. the sample of estimate_compression): an opaque stream
         self.zl.counter += 1
         n = self.zl.sample_len
